@@ -1,7 +1,7 @@
 (** C12 — property theorems: statements (as printed by Coq) closed by [exact]. *)
 From Coq Require Import ZArith QArith List Bool.
 From KV Require Import Base.Outcome Base.Num C19.Model C06.Model C06.Dur C06.Proofs C03.Model C03.ProofsLife
-  C12.Model C12.ProofsFrozen C12.ProofsRemoval C12.ProofsState C12.ProofsFade C12.ProofsExamples.
+  C12.Model C12.ProofsFrozen C12.ProofsRemoval C12.ProofsState C12.ProofsFade C12.ProofsExamples C12.ProofsResumeTween.
 Import ListNotations.
 
 Theorem paused_subtree_frozen :
@@ -512,3 +512,37 @@ Proof. exact @queued_track_dropped. Qed.
 Theorem ex_histories_in_order :
   Forall (event_ok Q xsound nat) (build_events ++ f1_history ++ f28a ++ f28b).
 Proof. exact @histories_in_order. Qed.
+
+Theorem resume_is_immediate_whatever_the_tween_start :
+  forall (T : Type) (NT : Num T) (V : Type) (silence identity : V) (Snd E : Type)
+         (t : track T V Snd E) (vol : option (value T V * tween T)) (pa : option (tween T)) (tw : tween T),
+       ps (t_psm t) <> Stopped ->
+       let t1 :=
+         read_commands V silence identity Snd E
+           (set_cmds t {| tc_vol := vol; tc_pause := pa; tc_resume := Some (Immediate, tw) |}) in
+       ps (t_psm t1) = Resuming /\
+       t_mirror t1 = 4%Z /\
+       is_advancing (ps (t_psm t1)) = true /\
+       fade (t_psm t1) = param_set (fade (after_pause V silence Snd E t pa)) (Fixed identity) tw.
+Proof. exact @resume_immediate_lemma. Qed.
+
+Theorem ex_resume_is_immediate_hypothesis_met :
+  forall (T : Type) (NT : Num T) (V : Type) (silence identity : V) (Snd E : Type) (id : nat) (persist : bool)
+         (vol : value T V) (fx : list E),
+       ps (t_psm (track_new V silence identity Snd E id persist vol fx)) <> Stopped.
+Proof. exact @resume_immediate_hypothesis_met. Qed.
+
+Theorem ex_resume_with_delayed_tween_runs :
+  t_mirror frozen_root = 2%Z /\
+       t_mirror resumed_root = 4%Z /\
+       is_advancing (ps (t_psm resumed_root)) = true /\
+       after_frames 7 = Some (4%Z, silenceQ, true) /\
+       match after_frames 8 with
+       | Some (4%Z, v, false) => Qle_bool v silenceQ = false
+       | _ => False
+       end /\
+       match after_frames 10 with
+       | Some (4%Z, v, false) => Qle_bool identityQ v = false
+       | _ => False
+       end /\ after_frames 11 = Some (0%Z, identityQ, false).
+Proof. exact @resume_with_delayed_tween_runs. Qed.
